@@ -167,9 +167,47 @@ def script_url(h, t, i):
     return ops.uf("script_url", S, S, OS.sort(), S)(h, t, i)
 
 
+def _reverse(run, args, kwargs, node):
+    """django.urls.reverse(CACHE_ENDPOINT_NAME, kwargs={...}) (A-DJ): the URL of the endpoint for exactly these path arguments - a
+    function of (comp_cls_hash, script_type, input_hash or none); nothing else may be passed"""
+    from pyvc.interp import EngineError
+    from pyvc.types import TDict
+    kw = kwargs.get("kwargs")
+    if isinstance(kw, Conc) and isinstance(kw.obj, tuple) and kw.obj[0] == "dictlit":
+        # a display with constant keys only: the same reading, key by key
+        items = {}
+        for k_, v_, _n in kw.obj[1]:
+            kc = z3.simplify(k_.t)
+            if not z3.is_string_value(kc):
+                raise EngineError("reverse(kwargs={...}) with a computed key")
+            items[kc.as_string()] = run.coerce(v_, TStr).t
+        run.oblige("pre@reverse#exactly_the_endpoint_arguments", z3.BoolVal("comp_cls_hash" in items and "script_type" in items and set(items) <= {"comp_cls_hash", "script_type", "input_hash"}), kind="pre")
+        name = run.coerce(args[0], TStr).t
+        run.oblige("pre@reverse#endpoint_name", name == z3.StringVal(_endpoint_name()), kind="pre", note="the URL is reversed for the library's cache endpoint")
+        return Val(TStr, script_url(items.get("comp_cls_hash", z3.StringVal("")), items.get("script_type", z3.StringVal("")),
+                                    OS.some(items["input_hash"]) if "input_hash" in items else OS.none()))
+    if kw is None or not isinstance(kw, Val) or not isinstance(kw.ty, TDict):
+        raise EngineError(f"reverse() without a kwargs dict: {kw}")
+    D_ = kw.ty
+    name = run.coerce(args[0], TStr).t
+    run.oblige("pre@reverse#endpoint_name", name == z3.StringVal(_endpoint_name()), kind="pre", note="the URL is reversed for the library's cache endpoint")
+    k = z3.Const("bv_k", S)
+    hk, tk, ik = z3.StringVal("comp_cls_hash"), z3.StringVal("script_type"), z3.StringVal("input_hash")
+    run.oblige("pre@reverse#exactly_the_endpoint_arguments", z3.And(
+        z3.Select(D_.has(kw.t), hk), z3.Select(D_.has(kw.t), tk), z3.ForAll([k], z3.Implies(z3.Select(D_.has(kw.t), k), z3.Or(k == hk, k == tk, k == ik)))), kind="pre")
+    val = lambda key_: run.coerce(Val(D_.v, z3.Select(D_.val(kw.t), key_)), TStr).t
+    return Val(TStr, script_url(val(hk), val(tk), z3.If(z3.Select(D_.has(kw.t), ik), OS.some(val(ik)), OS.none())))
+
+
+def _endpoint_name():
+    import ast as _ast
+    from pyvc.repo import load_module
+    return _ast.literal_eval(load_module(DEP).consts["CACHE_ENDPOINT_NAME"])
+
+
 REG.contract(
-    f"{DEP}:get_script_url", prop=P, verify=False, types={"script_type": Str, "comp_cls": CLS, "input_hash": OS}, result=Str,
-    note="ASSUMED (body is django.urls.reverse with a **-dict display): the URL is a function of (class hash, kind, input hash)",
+    f"{DEP}:get_script_url", prop=P, types={"script_type": Str, "comp_cls": CLS, "input_hash": OS}, result=Str, calls={"reverse": _reverse},
+    note="the URL is django.urls.reverse (assumed: a function of its path arguments) of exactly (class hash, kind, input hash)",
     # from the property: a URL is only emitted for a script that exists
     requires=[lambda c: _is_kind(c["script_type"].t), lambda c: nonblank(cls_script(c["comp_cls"].t, c["script_type"].t))],
     modifies=[], raises={},
@@ -370,6 +408,6 @@ NOT_COVERED = [
     "A-HASH (assumed, and FALSE for class factories - known finding F-C19a): distinct live component classes have distinct class hashes; the clause 'already published under the key' in the postcondition of cache_component_js / css is the component's OWN script only under this assumption",
     "every class hash that occurs in a dependency marker of the processed HTML is alive in comp_hash_mapping (a WeakValueDictionary): precondition of _prepare_tags_and_urls, not derived (HTML produced by another process, or by a class that has been garbage-collected since, raises KeyError)",
     "evictions between the render and the later GET (BaseCache is a map without spontaneous eviction here)",
-    "django.urls.reverse / URL resolver round trip (get_script_url's contract is assumed)",
+    "django.urls.reverse / URL resolver round trip (assumed stub; get_script_url itself is proved to pass exactly the class hash, the kind and the input hash)",
     "the ordering cache-before-emit inside Component._render_impl is argued (DESIGN), not machine-checked",
 ]
